@@ -1374,6 +1374,27 @@ def callee_without_state(gj, consts, fname, line, callee):
     return False
 
 
+def source_state_on_other_context(gj, consts, fname, line):
+    """Signature in the SFG: a symbol node S defined by a statement on `line` of `fname` has NO SYMBOL_STATE edge,
+    while another symbol node with the same (def_stmt_id, index, node_id) but a different context_id holds a state:
+    the state edge of the definition was attached to the other context copy of the symbol, so the taint engine, which
+    starts at the copy the statement defines, finds no state to tag."""
+    N = gj["nodes"]
+    K_STMT, K_SYM, K_ST = consts["K_STMT"], consts["K_SYMBOL"], consts["K_STATE"]
+    for i, n in enumerate(N):
+        if n[0] != K_SYM or os.path.basename(gj["units"][n[14]][0]) != fname:
+            continue
+        if not any(N[u][0] == K_STMT and et == consts["E_DEFINED"] and N[u][6] + 1 == line for u, et, _ in gj["in"][i]):
+            continue
+        if any(et == consts["E_SYMSTATE"] for _, et, _ in gj["out"][i]):
+            continue
+        for j, m in enumerate(N):
+            if j != i and m[0] == K_SYM and (m[1], m[2], m[3]) == (n[1], n[2], n[3]) and m[4] != n[4] and \
+                    any(et == consts["E_SYMSTATE"] and N[v][0] == K_ST for v, et, _ in gj["out"][j]):
+                return True
+    return False
+
+
 def returned_state_duplicated(gj, consts, fname, line):
     """Signature in the SFG: a symbol S defined by a statement on `line` of `fname` is used by a return statement,
     and a symbol defined by a call statement holds a state T that was created by the SAME statement as S's states
@@ -1399,6 +1420,55 @@ def returned_state_duplicated(gj, consts, fname, line):
                 if et == consts["E_SYMSTATE"] and N[h][0] == K_SYM and \
                         any(N[u][0] == K_STMT and et2 == consts["E_DEFINED"] and N[u][5] == "call_stmt" for u, et2, _ in gj["in"][h]):
                     return True
+    return False
+
+
+def def_use_edge_missing(gj, consts, x, def_file, def_line, use_file, use_line):
+    """In the SFG: symbol nodes named x defined by a statement on def_line exist, and none of them has a
+    SYMBOL_IS_USED edge to a statement on use_line."""
+    N = gj["nodes"]
+    K_STMT, K_SYM = consts["K_STMT"], consts["K_SYMBOL"]
+    found = False
+    for i, n in enumerate(N):
+        if n[0] != K_SYM or n[5] != x or os.path.basename(gj["units"][n[14]][0]) != def_file:
+            continue
+        if not any(N[u][0] == K_STMT and et == consts["E_DEFINED"] and N[u][6] + 1 == def_line for u, et, _ in gj["in"][i]):
+            continue
+        found = True
+        for v, et, _ in gj["out"][i]:
+            if et == consts["E_USED"] and N[v][0] == K_STMT and N[v][6] + 1 == use_line and \
+                    os.path.basename(gj["units"][N[v][14]][0]) == use_file:
+                return False
+    if not found:
+        return False
+    # the use statement must be in the graph at all (otherwise the enclosing method was simply not analysed)
+    return any(n[0] == K_STMT and n[6] + 1 == use_line and os.path.basename(gj["units"][n[14]][0]) == use_file for n in N)
+
+
+def reaching_def_lost(case, rend, gj, consts, s_site, k_site, names):
+    """C06 signature with proof: the program (AST) has a definition D of a variable X and a use U of X such that D
+    reaches U on every execution (taint_progs.must_reach_pairs), X lies on a dependence path of the missed flow
+    (source ->* X ->* the sink's designated argument), and in the entry point's SFG no symbol node named X defined on
+    D's line has a SYMBOL_IS_USED edge to a statement on U's line."""
+    import taint_progs as tp
+    md = tp.MayDep(case, rend.sites, call_propagates=True)
+    src_nodes = [n for n, srcs in md.src_of.items() if s_site in srcs]
+    sink_args = [arg for (site, arg, designated) in md.sink_args if site == k_site and designated and arg is not None]
+    reach_src = set()
+    for sn in src_nodes:
+        reach_src |= md.reach_from(sn)
+    for (scope, x, dp, up) in tp.must_reach_pairs(case):
+        if dp not in rend.stmt_lines or up not in rend.stmt_lines:
+            continue
+        xn = md.var(scope, x)
+        if xn not in reach_src:
+            continue
+        rx = md.reach_from(xn)
+        if not any(a in rx for a in sink_args):
+            continue
+        (df, dl), (uf, ul) = rend.stmt_lines[dp], rend.stmt_lines[up]
+        if def_use_edge_missing(gj, consts, x, names[df], dl, names[uf], ul):
+            return True
     return False
 
 
@@ -1547,10 +1617,14 @@ def classify_missed(case, rend, gj, consts, s_site, k_site, names):
     cut = tp.MayDep(case, rend.sites, cut_global_ret=True).flows()
     if (s_site, k_site) not in cut:
         return "C10/global-read-returned"
+    if gj is not None and source_state_on_other_context(gj, consts, names[s_site[0]], s_site[1]):
+        return "C10/source-state-on-other-context"
     if gj is not None and returned_state_duplicated(gj, consts, names[s_site[0]], s_site[1]):
         return "C10/returned-state-duplicated"
     if gj is not None and loop_def_lost(case, rend, gj, consts, s_site, k_site, names):
         return "C10/loop-def-lost"
+    if gj is not None and reaching_def_lost(case, rend, gj, consts, s_site, k_site, names):
+        return "C10/reaching-def-lost"
     return None
 
 
@@ -1629,7 +1703,8 @@ def run_jobs(jobs):
     import multiprocessing as mp
     payload = [{k: v for k, v in j.items() if not k.startswith("_")} for j in jobs]
     ctxm = mp.get_context("fork")
-    with ctxm.Pool(processes=min(len(jobs), max(1, (os.cpu_count() or 4) - 2)), maxtasksperchild=1) as pool:
+    cap = int(os.environ.get("LV_WORKERS", "0")) or max(1, (os.cpu_count() or 4) - 2)
+    with ctxm.Pool(processes=max(1, min(len(jobs), cap)), maxtasksperchild=1) as pool:
         return pool.map(packed_worker, payload, chunksize=1)
 
 
@@ -1964,6 +2039,11 @@ def corpus_program_eval(jobs, results, params, prob):
                 ok = True
                 if km["finding"] == "C10/repeated-external-callee":
                     ok = any(callee_without_state(g, consts, km["site"][0], km["site"][1], km["site"][2]) for g in graphs)
+                if km["finding"] == "C10/reaching-def-lost":
+                    du = km["def_use"]
+                    ok = any(def_use_edge_missing(g, consts, du["var"], du["file"], du["def_line"], du["file"], du["use_line"]) for g in graphs)
+                if km["finding"] == "C10/source-state-on-other-context":
+                    ok = any(source_state_on_other_context(g, consts, km["site"][0], km["site"][1]) for g in graphs)
                 if km["finding"] == "C10/returned-state-duplicated":
                     ok = any(returned_state_duplicated(g, consts, km["site"][0], km["site"][1]) for g in graphs)
                 if ok:
@@ -2062,7 +2142,9 @@ def shrink_program_problem(item, root, max_runs=10):
     """delete whole lines after the sink / unrelated top-level lines while the verdict persists (line numbers of the
     pair must stay valid, so only lines AFTER both sites of the main file are candidates)"""
     pr = item["problem"]
-    if "pair" not in pr:
+    if "pair" not in pr or pr.get("expect") != "spurious":
+        # a MISSED flow is only a violation while the program still produces it at run time; the ground truth cannot
+        # be recomputed from truncated text, so such programs are reported as generated
         return item
     main = sorted(item["files"])[0]
     lines = item["files"][main].split("\n")
